@@ -113,3 +113,93 @@ def observed(lines, out):
                 if a in ("open", "closed", "draining"):
                     final[int(cmd[2])] = a
     return cons, polls, final
+
+
+# ---- hook-free stress ---------------------------------------------------------------------------
+import json
+
+
+def run_stress(writers, per_writer, pollers, seed):
+    os.makedirs(os.path.join(build.BUILD, "work"), exist_ok=True)
+    wd = tempfile.mkdtemp(prefix="str-", dir=os.path.join(build.BUILD, "work"))
+    try:
+        op = os.path.join(wd, "out.json")
+        p = subprocess.run([build.XSV, "stress", os.path.join(wd, "w"), op, str(writers), str(per_writer),
+                            str(pollers), str(seed)], stdout=subprocess.PIPE, stderr=subprocess.PIPE, timeout=900)
+        if p.returncode or not os.path.exists(op):
+            return dict(error=p.stderr.decode(errors="replace")[-1500:], rc=p.returncode)
+        return json.load(open(op))
+    finally:
+        shutil.rmtree(wd, ignore_errors=True)
+
+
+def stress_oracle(d, which):
+    """which in C02 / C03 / C11; returns list of violation strings judged on the raw output"""
+    bad = []
+    if "error" in d:
+        return [f"stress run failed: rc={d['rc']} {d['error'][-300:]}"]
+    final = [x.split(":") for x in d["final"]]
+    final_ids = [i for i, _ in final]
+    ctx_of = {i: c for i, c in final}
+    eph = {x.split(":")[0]: x.split(":")[1] for x in d["ephemeral"]}
+    ctxs = d["contexts"]
+    if which == "C02":
+        if final_ids != sorted(final_ids):
+            bad.append("final read is not id-sorted")
+        for n, acc in enumerate(d["pollers"]):
+            if any(b <= a for a, b in zip(acc, acc[1:])):
+                bad.append(f"poller {n}: frames out of order or repeated")
+            miss = [i for i in final_ids if i not in set(acc)]
+            if miss:
+                bad.append(f"poller {n} (last-id polling) never received {len(miss)} committed frames, e.g. {miss[:3]}")
+        for f in d["followers"]:
+            ids = [x.split(":")[1] for x in f["items"] if x.startswith("r:")]
+            if any(b <= a for a, b in zip(ids, ids[1:])):
+                bad.append(f"follower {f['name']}: frames sent out of id order")
+    fol = {f["name"]: f for f in d["followers"]}
+    def reals(name):
+        return [x.split(":")[1:] for x in fol[name]["items"] if x.startswith("r:")]
+    if which == "C03":
+        for name, scope in (("all", None), ("ctx1", ctxs[1])):
+            got = [i for i, c in reals(name)]
+            want = [i for i in final_ids if scope is None or ctx_of[i] == scope]
+            if any(b <= a for a, b in zip(got, got[1:])):
+                bad.append(f"follower {name}: out of order / duplicate delivery")
+            miss = [i for i in want if i not in set(got)]
+            if miss:
+                bad.append(f"follower {name}: {len(miss)} stored in-scope frames never delivered, e.g. {miss[:3]}")
+            wrong = [i for i, c in reals(name) if scope is not None and c != scope]
+            if wrong:
+                bad.append(f"follower {name}: frames of another context delivered: {wrong[:3]}")
+            if fol[name]["items"].count("t") != 1:
+                bad.append(f"follower {name}: {fol[name]['items'].count('t')} threshold markers")
+            else:
+                k = fol[name]["items"].index("t")
+                before = {x.split(":")[1] for x in fol[name]["items"][:k] if x.startswith("r:")}
+                hist = [i for i in want if i <= d["hist_last"]]
+                if any(i not in before for i in hist):
+                    bad.append(f"follower {name}: pre-existing frames delivered after the threshold")
+        got = [i for i, c in reals("lastid")]
+        want = [i for i in final_ids if ctx_of[i] == ctxs[2] and i > d["hist_last"]]
+        if [i for i in want if i not in set(got)] or any(i <= d["hist_last"] for i in got):
+            bad.append("follower lastid: wrong set of frames after last-id")
+    if which == "C11":
+        for name, n in (("limit5", 5), ("limit9hb", 9), ("tail_limit3_ctx2", 3)):
+            got = reals(name)
+            if len(got) > n:
+                bad.append(f"follower {name}: limit {n} but {len(got)} frames delivered")
+            avail = len(final_ids) + len(eph)
+            if len(got) == n and not fol[name]["closed"]:
+                bad.append(f"follower {name}: limit {n} reached but the stream never ended")
+            if len(got) < n and avail > 200:
+                bad.append(f"follower {name}: only {len(got)} of {n} frames delivered")
+        hist = {i for i in final_ids if i <= d["hist_last"]}
+        for name in ("tail", "tail_limit3_ctx2"):
+            old = [i for i, c in reals(name) if i in hist]
+            if old:
+                bad.append(f"follower {name} (tail) was sent historical frames {old[:3]}")
+        for f in d["followers"]:
+            if "p" in f["items"] and f["name"] != "limit9hb":
+                bad.append(f"follower {f['name']}: received pulses it did not ask for")
+        # synthetic frames never stored
+    return bad
